@@ -453,6 +453,7 @@ class Ctx(object):
         self.current_measure = None
         self.verifying_fq_transparent = None
         self.current_exc = None
+        self.str_domains = {}
 
     def fresh(self, name, sort=I):
         self.n += 1
@@ -585,6 +586,8 @@ def sv_eq(ctx, st, a, b, node=None):
     if ka == "str" and kb == "str":
         return a.z == b.z
     if ka == "ref" and kb == "ref":
+        if not ctx.spec_mode and (str(a.x).startswith(("list", "bytearray", "opaque")) or str(b.x).startswith(("list", "bytearray", "opaque"))) and not a.z.eq(b.z):
+            return ctx.fresh("content_eq", B)  # == on sequences/opaque objects compares contents: left uninterpreted
         return a.z == b.z
     if ka == "array" and kb == "array":
         return a.z == b.z
@@ -1076,6 +1079,10 @@ class Exec(object):
                     m = q.as_long()
                     if m >= 0 and (m & (m + 1)) == 0:  # 2^k - 1
                         return p % z3.IntVal(m + 1)
+                    if 0 <= m < (1 << 24):
+                        # exact for every integer p (two's complement): sum of the selected bits
+                        terms = [z3.IntVal(1 << i) * ((p / z3.IntVal(1 << i)) % 2) for i in range(m.bit_length()) if (m >> i) & 1]
+                        return z3.Sum(terms) if terms else z3.IntVal(0)
             return band(x, y)
         if isinstance(op, ast.BitOr):
             return bor(x, y)
